@@ -24,6 +24,7 @@ func specC08() *propertySpec {
 			{"C08-R2", "only-supplied-actions: the executed function is actions[key] for a key drawn from the sorted non-empty keys of that same map; the invariant is actions[\"\"] or a no-op", ruleC08R2},
 			{"C08-R3", "bounded-retry-then-fail: executeAction retries at most validActionTries times, only after a skipped action, then panics with stopTest; runAction derives skipped from the draw counter", ruleC08R3},
 			{"C08-R4", "no-swallow: Repeat and executeAction contain no recover and no defer", ruleC08R4},
+			{"C08-R6", "skip-does-not-hide-failure: when an action ends by skipping (invalidData), the failure flag is still consulted before runAction returns, so a non-fatal failure signalled before the skip stops Repeat at once", ruleC08R6},
 			{"C08-R5", "reflection-table: StateMachineActions skips exactly the method of interface StateMachine, installs sm.Check under \"\", asserts at least one action", ruleC08R5},
 		},
 	}
@@ -515,4 +516,62 @@ func ruleC08R5(r *Run) {
 		}
 		r.Check("StateMachineActions$1#forwards", ad.Pos(), ok && countDyn(p, ad) == 1, "the func(TB) adapter calls the method once with its own *T", "the func(TB) adapter does not forward exactly its own *T")
 	}
+}
+
+func ruleC08R6(r *Run) {
+	p := r.P
+	ra := r.MustFn("runAction")
+	if ra == nil {
+		return
+	}
+	tPar := ssa.Value(ra.Params[0])
+	var filter *ssa.Defer
+	var filterFn *ssa.Function
+	var deferredConsult *ssa.Defer
+	for _, cs := range p.calls(ra) {
+		d, ok := cs.Instr.(*ssa.Defer)
+		if !ok {
+			continue
+		}
+		if mc, ok := d.Common().Value.(*ssa.MakeClosure); ok && len(p.callsTo(mc.Fn.(*ssa.Function), "builtin:recover")) > 0 {
+			filter, filterFn = d, mc.Fn.(*ssa.Function)
+		}
+		if cs.Key == "(*T).failOnError" && p.resolve(cs.Recv()) == tPar {
+			deferredConsult = d
+		}
+	}
+	if filter == nil {
+		r.Undecided("runAction#filter", ra.Pos(), "anchor unresolved: the recovering defer of runAction")
+		return
+	}
+	// (a) a deferred failOnError registered before the filter runs after it on every exit
+	if deferredConsult != nil && dominates(deferredConsult, filter) {
+		r.OK("runAction#skip-consults-flag", deferredConsult.Pos(), "a deferred failOnError registered before the recover filter runs after it on every exit, including the skip path")
+		return
+	}
+	// (b) inside the filter: every return reachable from the invalidData edge passes failOnError(t)
+	ok := false
+	why := "the invalidData edge of the recover filter returns without consulting the failure flag"
+	for _, b := range filterFn.Blocks {
+		iff, isIf := b.Instrs[len(b.Instrs)-1].(*ssa.If)
+		if !isIf {
+			continue
+		}
+		rl := p.relOf(guard{Cond: iff.Cond, Pol: true})
+		if !strings.HasPrefix(rl.X, "assert<invalidData>(builtin:recover()),ok#1") {
+			continue
+		}
+		first := b.Succs[0].Instrs[0]
+		isConsult := func(in ssa.Instruction) bool {
+			c, isCall := in.(*ssa.Call)
+			return isCall && p.calleeKey(c.Common()) == "(*T).failOnError" && p.expr(c.Common().Args[0]) == "$t"
+		}
+		if isConsult(first) || escapesWithout(first, isConsult, false) == nil {
+			if _, isRet := first.(*ssa.Return); !isRet {
+				ok = true
+			}
+		}
+	}
+	r.Check("runAction#skip-consults-flag", filter.Pos(), ok, "on the skip (invalidData) path the failure flag is consulted before runAction returns",
+		why+": an action that signals a non-fatal failure (Errorf/Fail) and then skips lets Repeat run further actions and invariant checks on the falsified state (the test case fails only at its end)")
 }
